@@ -483,3 +483,127 @@ func recompile() {
 			Input: caseInput{Scenario: "recompile", Engine: "both", Listener: "two factories, all functions"}, Expected: fmt.Sprint(perEngine[0]), Actual: fmt.Sprint(perEngine[1])})
 	}
 }
+
+
+// multiStage: the listener-set combinator.  experimental.MultiFunctionListenerFactory(A, B) must give EACH of its
+// listeners exactly what a single factory gets: the same events, values and - through a stack iterator of its own that
+// every listener may walk - the same call chain at every before-event, whatever was walked at earlier events (deeper or
+// shallower chains of the same function).  Every witness program and a few generated ones run plain and combined, with
+// all listeners on, on both engines.
+func multiStage(progs []*Program) {
+	multiRecursion()
+	for pi, p := range progs {
+		if p.Tail {
+			continue
+		}
+		for _, eng := range engines {
+			all := allSet(p)
+			multiFactory = false
+			plain, err := runProgram(p, eng, all)
+			if err != nil {
+				hx.Fatal("multi stage: %v", err)
+			}
+			multiFactory = true
+			multi, err := runProgram(p, eng, all)
+			multiFactory = false
+			if err != nil {
+				hx.Fatal("multi stage: %v", err)
+			}
+			for ci := range plain {
+				rep.Case(fmt.Sprintf("multi/%d/%s/%d", pi, eng, ci))
+				if ci >= len(multi) {
+					break
+				}
+				in := caseInput{Scenario: "multi-factory", Engine: eng, Listener: "MultiFunctionListenerFactory(all, all)", Program: p, Call: ci}
+				want := eventsStr(plain[ci].Events)
+				for k, got := range []string{eventsStr(multi[ci].Events), eventsStr(multi[ci].Shadow)} {
+					if got != want {
+						sig := "C20:multi-factory-listener-sees-other-events:" + eng
+						if eng == "compiler" && sameButStacks(plain[ci].Events, [][]Event{multi[ci].Events, multi[ci].Shadow}[k]) {
+							sig = "C20:multi-factory-stack-iterator-differs:" + eng
+						}
+						rep.Violate(hx.Violation{Kind: "impl-violation", Signature: sig,
+							What:  fmt.Sprintf("%s: listener set %d of MultiFunctionListenerFactory(A, B) does not see what a single factory sees (events, values, or the call chain listed by its stack iterator)", eng, k+1),
+							Input: in, Expected: want, Actual: got})
+						break
+					}
+				}
+			}
+		}
+	}
+}
+
+// sameButStacks: the two streams differ at most in the stack snapshots of their before-events.
+func sameButStacks(a, b []Event) bool {
+	if len(a) != len(b) {
+		return false
+	}
+	for i := range a {
+		x, y := a[i], b[i]
+		x.Stack, y.Stack = nil, nil
+		if eventsStr([]Event{x}) != eventsStr([]Event{y}) {
+			return false
+		}
+	}
+	return true
+}
+
+
+type chainListener struct {
+	chains *[]string
+}
+
+func (l chainListener) Before(_ context.Context, _ api.Module, def api.FunctionDefinition, params []uint64, si experimental.StackIterator) {
+	var c []string
+	for si.Next() {
+		c = append(c, fmt.Sprint(si.Function().Definition().Index()))
+	}
+	*l.chains = append(*l.chains, fmt.Sprintf("f%d(%d)[%s]", def.Index(), uint32(params[0]), strings.Join(c, ",")))
+}
+func (l chainListener) After(context.Context, api.Module, api.FunctionDefinition, []uint64) {}
+func (l chainListener) Abort(context.Context, api.Module, api.FunctionDefinition, error)    {}
+
+// multiRecursion: the same functions entered at many depths, deeper and then SHALLOWER again (run(5), run(1), run(3)):
+// each listener of the combinator must be shown the chain of THIS entry.
+func multiRecursion() {
+	m := wb.New()
+	// f0 = run(n): f1(n); f1(n): if n { f2(n-1) }; f2(n): f1(n)
+	m.AddFunc(wb.Func{Params: []byte{wb.I32}, Export: "run", Body: wb.Cat(wb.LocalGet(0), wb.Call(1))})
+	m.AddFunc(wb.Func{Params: []byte{wb.I32}, Body: wb.Cat(wb.LocalGet(0), wb.Op(wasm.OpcodeIf, 0x40), wb.LocalGet(0), wb.I32Const(1), wb.Op(wasm.OpcodeI32Sub), wb.Call(2), wb.Op(wasm.OpcodeEnd))})
+	m.AddFunc(wb.Func{Params: []byte{wb.I32}, Body: wb.Cat(wb.LocalGet(0), wb.Call(1))})
+	bin := m.Bytes()
+	for _, eng := range engines {
+		var got [3][]string
+		for mode := 0; mode < 2; mode++ { // 0: a single factory; 1: the combinator with two
+			mk := func(k int) experimental.FunctionListenerFactory {
+				return experimental.FunctionListenerFactoryFunc(func(api.FunctionDefinition) experimental.FunctionListener {
+					return chainListener{&got[k]}
+				})
+			}
+			ctx := experimental.WithFunctionListenerFactory(context.Background(), mk(0))
+			if mode == 1 {
+				ctx = experimental.WithFunctionListenerFactory(context.Background(), experimental.MultiFunctionListenerFactory(mk(1), mk(2)))
+			}
+			rt := wazero.NewRuntimeWithConfig(ctx, rtConfig(eng, false))
+			mod, err := rt.InstantiateWithConfig(ctx, bin, wazero.NewModuleConfig())
+			if err != nil {
+				hx.Fatal("multi recursion: %v", err)
+			}
+			for _, n := range []uint64{5, 1, 3, 0, 4} {
+				mod.ExportedFunction("run").Call(ctx, n)
+			}
+			rt.Close(ctx)
+		}
+		rep.Case("multi-recursion/" + eng)
+		want := strings.Join(got[0], " ")
+		for k := 1; k <= 2; k++ {
+			if g := strings.Join(got[k], " "); g != want {
+				rep.Violate(hx.Violation{Kind: "impl-violation", Signature: "C20:multi-factory-stack-iterator-differs:" + eng,
+					What:  fmt.Sprintf("%s: listener %d of MultiFunctionListenerFactory(A, B) is shown other call chains at its before-events than a single factory's listener (run(5), run(1), run(3), run(0), run(4) through f1/f2 recursion)", eng, k),
+					Input: caseInput{Scenario: "multi-recursion", Engine: eng, Listener: "MultiFunctionListenerFactory(all, all)", Note: "run(n) -> f1(n) -> f2(n-1) -> f1(n-1) ...; calls run(5), run(1), run(3), run(0), run(4); each before-event records the function indexes the stack iterator lists"},
+					Expected: want, Actual: g})
+				break
+			}
+		}
+	}
+}
